@@ -128,6 +128,72 @@ pub proof fn lemma_uleb_terminated(n: nat)
         assert(s[s.len() - 1] == t[t.len() - 1]);
     }
 }
+/// position just after the first byte without continuation bit (0 when there is none): the length of
+/// the varint the sequence starts with
+pub open spec fn leb_end(s: Seq<u8>) -> int
+    decreases s.len()
+{
+    if s.len() == 0 { 0 } else if s[0] < 128 { 1 } else { let r = leb_end(s.skip(1)); if r == 0 { 0 } else { 1 + r } }
+}
+pub proof fn lemma_leb_end_bounds(s: Seq<u8>)
+    ensures 0 <= leb_end(s) <= s.len()
+    decreases s.len()
+{ if s.len() > 0 && s[0] >= 128 { lemma_leb_end_bounds(s.skip(1)); } }
+/// leb_end is the unique termination point
+pub proof fn lemma_leb_end_terminated(s: Seq<u8>, k: int)
+    requires leb_terminated(s, k)
+    ensures leb_end(s) == k
+    decreases k
+{
+    if k == 1 { } else {
+        assert(s[0] >= 128);
+        let t = s.skip(1);
+        assert(t[k - 2] == s[k - 1]);
+        assert forall|i: int| 0 <= i < k - 2 implies t[i] >= 128 by { assert(t[i] == s[i + 1]); }
+        lemma_leb_end_terminated(t, k - 1);
+    }
+}
+pub proof fn lemma_leb_end_is_terminated(s: Seq<u8>)
+    requires leb_end(s) > 0
+    ensures leb_terminated(s, leb_end(s))
+    decreases s.len()
+{
+    if s[0] < 128 { } else {
+        let t = s.skip(1);
+        lemma_leb_end_is_terminated(t);
+        lemma_leb_end_bounds(t);
+        let k = leb_end(s);
+        assert(s[k - 1] == t[k - 2]);
+        assert forall|i: int| 0 <= i < k - 1 implies s[i] >= 128 by { if i > 0 { assert(s[i] == t[i - 1]); } }
+    }
+}
+/// no terminator among the first n bytes
+pub proof fn lemma_leb_no_end_before(s: Seq<u8>, n: int)
+    requires 0 <= n <= s.len(), forall|j: int| 0 <= j < n ==> s[j] >= 128
+    ensures leb_end(s) == 0 || leb_end(s) > n
+    decreases n
+{
+    lemma_leb_end_bounds(s);
+    if n > 0 {
+        let t = s.skip(1);
+        assert(s[0] >= 128);
+        assert forall|j: int| 0 <= j < n - 1 implies t[j] >= 128 by { assert(t[j] == s[j + 1]); }
+        lemma_leb_no_end_before(t, n - 1);
+        assert(leb_end(s) == (if leb_end(t) == 0 { 0 } else { 1 + leb_end(t) }));
+    }
+}
+/// leb_end depends only on the bytes up to the terminator
+pub proof fn lemma_leb_end_prefix(a: Seq<u8>, b: Seq<u8>)
+    requires leb_end(a) > 0
+    ensures leb_end(a + b) == leb_end(a)
+{
+    lemma_leb_end_is_terminated(a);
+    let k = leb_end(a);
+    let s = a + b;
+    assert forall|i: int| 0 <= i < k implies s[i] == a[i] by { }
+    assert(leb_terminated(s, k));
+    lemma_leb_end_terminated(s, k);
+}
 /// value of a terminated LEB128 prefix of length k
 pub open spec fn leb_val(s: Seq<u8>, k: int) -> nat
     decreases k
@@ -189,7 +255,8 @@ pub proof fn lemma_varint_done(buf: Seq<u8>, i: int, inp: Seq<u8>)
     ensures leb_terminated(buf.take(i), i), leb_terminated(inp, i),
             forall|k: int| leb_terminated(buf.take(i), k) ==> k == i,
             forall|k: int| leb_terminated(inp, k) ==> k == i,
-            leb_val(buf.take(i), i) == leb_val(inp, i)
+            leb_val(buf.take(i), i) == leb_val(inp, i),
+            leb_end(inp) == i, leb_end(buf.take(i)) == i
 {
     let t = buf.take(i);
     assert forall|j: int| 0 <= j < i implies t[j] == inp[j] by { }
@@ -201,6 +268,8 @@ pub proof fn lemma_varint_done(buf: Seq<u8>, i: int, inp: Seq<u8>)
         if k > i { assert(inp[i - 1] == buf[i - 1]); }
     }
     lemma_leb_val_agree(t, inp, i);
+    lemma_leb_end_terminated(inp, i);
+    lemma_leb_end_terminated(t, i);
 }
 pub proof fn lemma_zz_inj(a: int, b: int) requires zz(a) == zz(b) ensures a == b { }
 
